@@ -5,6 +5,12 @@
    when the variables have the values e (e v = None: undefined): Some TTrue, Some
    TFalse, Some TMalformed (bmake stops with "Malformed conditional"), or None
    when c uses a modifier outside the fragment :M :N :tl :U.
+   The pattern of :M / :N is the text as written: literal bytes and nested
+   references ${NAME}; bmake expands it in the environment e before matching
+   ([expand_pat e pat]; an undefined nested variable contributes nothing, glob
+   bytes in a nested value act as glob bytes; any other use of '$' = outside).
+   So every theorem below also quantifies over the values of all variables that
+   patterns refer to.  [no_dollar pat]: the pattern has no '$' byte.
    Model/CondSimp.v: simplify_word / simplify_yesno / simplify_match / check_and
    return the rewrites pkglint offers; rw_from_c / rw_to_c say what the from/to
    texts mean as trees (checked against the spec's reader on every generated case).
@@ -20,7 +26,8 @@
      "isDefined is right" = where pkglint's isDefined says the variable is
      defined, it is (e v <> None). *)
 From PV Require Import Lib.Bytes Gen.CondSimpSets Spec.BmakeCond Model.CondSimp
-  Proofs.CondSimpA Proofs.CondSimpB Proofs.CondSimpNum Proofs.CondSimpC Proofs.CondSimpWords Proofs.CondSimpD.
+  Proofs.CondSimpA Proofs.CondSimpB Proofs.CondSimpNum Proofs.CondSimpC Proofs.CondSimpWords Proofs.CondSimpD
+  Proofs.CondSimpE Proofs.CondSimpF.
 Open Scope N_scope.
 
 (* ---- the regenerated literals are the ones the model was written against ---- *)
@@ -198,3 +205,95 @@ Example C14_repaired_quotes :
   exists rw, simplify_word ex_cx ex_var [[77; 49; 101; 49]] true true = [rw] /\
              rw_to rw = [36; 123; 86; 125; 32; 61; 61; 32; 34; 49; 101; 49; 34].
 Proof. exact repaired_quotes. Qed.
+
+(* ---- patterns with nested references ${NAME} ---- *)
+(* a pattern without '$' is matched as written, whatever the variables are *)
+Theorem C14_literal_pattern_env_independent : forall p,
+  no_dollar p = true -> forall e, expand_pat e p = Some p.
+Proof. exact literal_pattern_env_independent. Qed.
+Print Assumptions C14_literal_pattern_env_independent.
+
+(* what a pattern expands to depends only on the variables it mentions *)
+Theorem C14_expand_pat_ext : forall e1 e2 p ps,
+  parse_pat (S (length p)) p = Some ps ->
+  (forall v, In (PPRef v) ps -> e1 v = e2 v) -> expand_pat e1 p = expand_pat e2 p.
+Proof. exact expand_pat_ext. Qed.
+Print Assumptions C14_expand_pat_ext.
+
+(* the guards as coded (the regenerated byte sets of simplifyWord and simplifyMatch,
+   toLower's shape): whatever SimplifyExpr offers, the pattern of the last modifier
+   has no nested reference ... *)
+Theorem C14_rewritten_pattern_has_no_nested_reference : forall cx line v mods fe neg rw,
+  In rw (simplify_expr cx line v mods fe neg) ->
+  exists c pat, last mods [] = c :: pat /\ no_dollar pat = true.
+Proof. exact simplify_expr_no_nested. Qed.
+Print Assumptions C14_rewritten_pattern_has_no_nested_reference.
+
+(* ... i.e. a condition on a pattern with a '$' is left alone by all three simplifiers *)
+Theorem C14_nested_pattern_not_rewritten : forall cx line v mods fe neg c pat,
+  last mods [] = c :: pat -> no_dollar pat = false ->
+  simplify_expr cx line v mods fe neg = [].
+Proof. exact nested_pattern_not_rewritten. Qed.
+Print Assumptions C14_nested_pattern_not_rewritten.
+
+(* what [!]empty(V:Mpat) -> [!]${V:Mpat} needs when pat has nested references: for
+   ALL environments e (values of V and of every nested variable), if in e no
+   non-empty word that matches the pattern AS EXPANDED IN e is a number, the two
+   conditions have the same value.  (mayMatchNumber looks at the unexpanded text.) *)
+Theorem C14_nested_match_equivalent : forall e v pms pat q (neg : bool) d s,
+  eval_expr e v pms = Some (d, s) -> e v <> None -> clean s ->
+  expand_pat e pat = Some q ->
+  (forall w, w <> [] -> wordlike w -> str_match w q = true -> try_parse_number w = None) ->
+  equivalent e
+    (if neg then CNot (CEmpty v (pms ++ [ModM pat])) else CEmpty v (pms ++ [ModM pat]))
+    (if neg then CLeaf (LExpr v (pms ++ [ModM pat])) else CNot (CLeaf (LExpr v (pms ++ [ModM pat])))).
+Proof. exact nested_match_equivalent. Qed.
+Print Assumptions C14_nested_match_equivalent.
+
+(* with  != ""  appended nothing about numbers is needed, for any pattern inside the fragment *)
+Theorem C14_nested_match_equivalent_cmp : forall e v pms pat q (neg : bool) d s,
+  eval_expr e v pms = Some (d, s) -> e v <> None -> clean s ->
+  expand_pat e pat = Some q ->
+  equivalent e
+    (if neg then CNot (CEmpty v (pms ++ [ModM pat])) else CEmpty v (pms ++ [ModM pat]))
+    (let inner := CCmp (LExpr v (pms ++ [ModM pat])) false (LQuoted []) in
+     if neg then inner else CNot inner).
+Proof. exact nested_match_equivalent_cmp. Qed.
+Print Assumptions C14_nested_match_equivalent_cmp.
+
+(* the promise about the unexpanded text is not enough: !empty(V:M${L}* ) is true and
+   ${V:M${L}*} is false for L = 0, V = 0, although the text ${L}* matches no number *)
+Example C14_nested_needs_expanded_promise :
+  parse_cond ex_from_text = Some (CNot (CEmpty ex_V [ModM ex_nested_pat])) /\
+  parse_cond ex_to_text = Some (CLeaf (LExpr ex_V [ModM ex_nested_pat])) /\
+  eval ex_env (CNot (CEmpty ex_V [ModM ex_nested_pat])) = Some TTrue /\
+  eval ex_env (CLeaf (LExpr ex_V [ModM ex_nested_pat])) = Some TFalse /\
+  (forall w, str_match w ex_nested_pat = true -> exists r, w = 36 :: r).
+Proof. exact nested_needs_expanded_promise. Qed.
+
+(* ---- Autofix.Replace: from "the rewrite (from, to) keeps the value" to "the line pkglint writes" ---- *)
+(* a fix is carried out only as: one occurrence of the from-text, the first one, replaced by the to-text *)
+Theorem C14_autofix_replace_spec : forall line from to line',
+  autofix_replace line from to = Some line' ->
+  exists a b, line = a ++ from ++ b /\ line' = a ++ to ++ b /\ no_start_in from a (from ++ b).
+Proof. exact autofix_replace_spec. Qed.
+Print Assumptions C14_autofix_replace_spec.
+
+(* the final line is reached from the original by carrying out exactly the logged fixes, in
+   order, each on the line its predecessors left; every logged fix is one that was offered *)
+Theorem C14_apply_rewrites_spec : forall rws line line' done,
+  apply_rewrites line rws = (line', done) ->
+  rewritten line done line' /\ (forall rw, In rw done -> In rw rws).
+Proof. exact apply_rewrites_spec. Qed.
+Print Assumptions C14_apply_rewrites_spec.
+
+(* ---- obligations on the regenerated byte sets: a wrong table breaks one of these ---- *)
+Theorem C14_tables_fit_the_reader :
+  forallb word_char lit_unquoted_set = true /\
+  forallb (fun c => plain_mod_char 125 c && plain_mod_char 41 c) lit_pattern_set = true /\
+  forallb (fun c => (c =? 58) || (plain_mod_char 125 c && plain_mod_char 41 c)) simple_mod_set = true /\
+  forallb (in_set match_special_set) [42; 63; 91; 92] = true /\
+  forallb (in_set numeric_head_set) [43; 45; 46; 48; 49; 50; 51; 52; 53; 54; 55; 56; 57] = true /\
+  in_set lit_pattern_set 36 = false /\ in_set simple_mod_set 36 = false.
+Proof. exact tables_fit_the_reader. Qed.
+Print Assumptions C14_tables_fit_the_reader.
